@@ -444,7 +444,8 @@ def op_iadd(E, m, S):
     omets = {mm.id: c for mm, c in o._metabolites.items()}
     orule = "live" if (o is r or (o.id in m.reactions and m.reactions.get_by_id(o.id) is o)) else "g9"
     _try(S, "+=", f, r=r.id, other=other,
-         ref=lambda R, i=r.id, oid=o.id: R.combine(i, omets, (R.rxn[oid]["rule"] if orule == "live" else orule), 1))
+         ref=lambda R, i=r.id, oid=o.id: (R.shared.update(omets if orule != "live" else ()),
+                                          R.combine(i, omets, (R.rxn[oid]["rule"] if orule == "live" else orule), 1)))
 
 
 def op_isub(E, m, S):
